@@ -40,35 +40,58 @@ def worktree(name):
     return d
 
 def survive(args):
-    wt, f, i, line, desc = args
+    wt, f, i, line, desc, fn = args
     sh('git checkout -q -- .', cwd=wt)
     rc, out = sh(f'/verif/bin/mutate -file {wt}/{f} -n {i} -o {wt}/{f}')
-    if rc != 0: return (f, i, line, desc, 'mutate-failed')
+    if rc != 0: return (f, i, line, desc, fn, 'mutate-failed')
     rc, out = sh('go build ./... && go vet ./' + os.path.dirname(f) + '/', cwd=wt, timeout=300)
-    if rc != 0: return (f, i, line, desc, 'no-build')
+    if rc != 0: return (f, i, line, desc, fn, 'no-build')
     for rep in range(2):
         rc, out = sh('go test -vet=off -count=1 -timeout 120s ./...', cwd=wt, timeout=400)
-        if rc != 0: return (f, i, line, desc, 'killed-by-tests')
+        if rc != 0: return (f, i, line, desc, fn, 'killed-by-tests')
     env = dict(ENV); env.pop('GOTOOLCHAIN'); env.pop('GOSUMDB')
     rc, out = sh('go test -vet=off -count=1 -timeout 240s ./...', cwd=wt + '/internal/integration', env=env, timeout=600)
-    if rc != 0: return (f, i, line, desc, 'killed-by-tests')
-    return (f, i, line, desc, 'survived')
+    if rc != 0: return (f, i, line, desc, fn, 'killed-by-tests')
+    return (f, i, line, desc, fn, 'survived')
+
+HF = None
+def harnesses_for(f, fn):
+    """quick-tier harnesses that execute the mutated function, cheapest first"""
+    global HF
+    if HF is None: HF = json.load(open(os.environ.get('HARNESS_FUNCS', '/tmp/harness_funcs.json')))
+    pkgpath = 'storj.io/drpc/' + os.path.dirname(f)
+    if ')' in fn:   # method: "Type).Name"
+        pats = [pkgpath + '.' + fn, pkgpath + '.' + fn.replace(').', '[').split('[')[0]]  # generic receivers print differently
+        hit = lambda fs: any((pkgpath + '.' + fn) in x or (pkgpath + '.' + fn.split(')')[0] + '[') in x and x.endswith('.' + fn.split(').')[1]) for x in fs)
+    else:
+        hit = lambda fs: any(x == pkgpath + '.' + fn or x.startswith(pkgpath + '.' + fn + '$') or x.startswith(pkgpath + '.' + fn + '[') for x in fs)
+    return sorted([h for h in HF if hit(h['funcs'])], key=lambda h: h['wall'])
 
 def detect(args):
-    wt, f, i, line, desc = args
+    wt, f, i, line, desc, fn = args
     sh('git checkout -q -- .', cwd=wt)
     sh(f'/verif/bin/mutate -file {wt}/{f} -n {i} -o {wt}/{f}')
-    pkg = f.split('/')[0]
-    tried = []
-    for cid in CHECKS.get(pkg, []):
-        env = dict(os.environ, VERIF_REPO=wt, VERIF_ONLY='VerifH_', VERIF_NO_WITNESS='1', GOSMT_TIMEOUT_CAP='600')
-        rc, out = sh(f'/verif/bin/check {cid} quick', cwd='/verif', env=env, timeout=3000)
-        tried.append((cid, rc))
-        if rc == 1 and 'VIOLATION' in out:
-            lab = re.findall(r'label="([^"]+)"', out)[:2]
-            return (f, i, line, desc, 'caught', cid, lab)
-    incon = [c for c, r in tried if r not in (0, 1)]
-    return (f, i, line, desc, 'inconclusive' if incon else 'undetected', ','.join(incon), [])
+    hs = harnesses_for(f, fn)
+    if not hs:
+        return (f, i, line, desc, fn, 'no-harness-executes-it', '', [])
+    incon = []
+    for h in hs:
+        cmd = f"/verif/bin/gosmt run -pkg {h['pkg']} -fn '^{h['fn']}$' -K {h['K']} -w 6 -timeout 300"
+        if h['params']: cmd += ' -params ' + ','.join(f'{k}={v}' for k, v in h['params'].items())
+        if h['fine']: cmd += ' -fine'
+        env = dict(os.environ, VERIF_REPO=wt)
+        rc, out = sh(cmd, cwd='/verif/gosmt', env=env, timeout=900)
+        head = [l for l in out.split('\n') if l.startswith('VerifH')]
+        if head and ' VIOLATED ' in head[0]:
+            # known findings of the unchanged tree do not count: require a label that the clean tree does not produce
+            labs = sorted(set(re.findall(r'^    (?:assert|panic|race|deadlock): (.*?) @', out, re.M)))
+            base = set(h.get('clean_labels', []))
+            new = [l for l in labs if l not in base]
+            if new:
+                return (f, i, line, desc, fn, 'caught', h['fn'], new[:2])
+        elif head and ' INCONCLUSIVE ' in head[0]:
+            incon.append(h['fn'])
+    return (f, i, line, desc, fn, 'inconclusive' if incon else 'undetected', ','.join(incon), [h['fn'] for h in hs][:6])
 
 def main():
     out, files = sys.argv[1], sys.argv[2:]
@@ -77,9 +100,9 @@ def main():
         rc, o = sh(f'/verif/bin/mutate -file /repo/{f} -list')
         for l in o.strip().split('\n'):
             if not l: continue
-            i, line, desc = l.split('\t')
-            jobs.append((f, int(i), int(line), desc))
-    n1 = int(os.environ.get('SWEEP_JOBS1', '6')); n2 = int(os.environ.get('SWEEP_JOBS2', '2'))
+            i, line, desc, fn = l.split('\t')
+            jobs.append((f, int(i), int(line), desc, fn))
+    n1 = int(os.environ.get('SWEEP_JOBS1', '6')); n2 = int(os.environ.get('SWEEP_JOBS2', '3'))
     wts = [worktree(f'a{k}') for k in range(n1)]
     res1 = []
     # round-robin the worktrees: each worker owns one
@@ -90,13 +113,14 @@ def main():
         return r
     with cf.ThreadPoolExecutor(n1) as ex:
         for r in ex.map(worker, range(n1)): res1 += r
-    surv = [r for r in res1 if r[4] == 'survived']
-    print(f'{len(jobs)} mutants: {sum(r[4]=="no-build" for r in res1)} do not build, {sum(r[4]=="killed-by-tests" for r in res1)} killed by the existing tests, {len(surv)} survive', flush=True)
+    surv = [r for r in res1 if r[5] == 'survived']
+    print(f'{len(jobs)} mutants: {sum(r[5]=="no-build" for r in res1)} do not build, {sum(r[5]=="killed-by-tests" for r in res1)} killed by the existing tests, {len(surv)} survive', flush=True)
+    json.dump({'phase1': res1}, open(out + '.phase1', 'w'))
     res2 = []
     def worker2(k):
         r = []
         for idx in range(k, len(surv), n2):
-            x = detect((wts[k],) + surv[idx][:4])
+            x = detect((wts[k],) + surv[idx][:5])
             print('  ', x, flush=True)
             r.append(x)
         return r
@@ -104,7 +128,8 @@ def main():
         for r in ex.map(worker2, range(n2)): res2 += r
     for w in wts: sh(f'git -C /repo worktree remove --force {w}')
     json.dump({'phase1': res1, 'phase2': res2}, open(out, 'w'), indent=1)
-    und = [r for r in res2 if r[4] != 'caught']
+    json.dump({'phase1': res1}, open(out + '.phase1', 'w'))
+    und = [r for r in res2 if r[5] != 'caught']
     print(f'survivors: {len(surv)}, caught by the checks: {len(res2)-len(und)}, not caught: {len(und)}')
     for r in und: print('   NOT CAUGHT', r)
 
